@@ -25,7 +25,7 @@ def _has_strings(fs):
     return False
 
 
-def _cvc5(fs, want_model):
+def _cvc5(fs, want_model, fmf=False):
     s = z3.Solver()
     for f in fs:
         s.add(f)
@@ -43,8 +43,8 @@ def _cvc5(fs, want_model):
     t0 = time.time()
     try:
         out = subprocess.run(
-            ['/usr/bin/cvc5', '--strings-exp', '--tlimit=%d' % CVC5_MS,
-             '--seed=%d' % SEED, path],
+            ['/usr/bin/cvc5', '--strings-exp'] + (['--strings-fmf'] if fmf else []) +
+            ['--tlimit=%d' % (CVC5_MS // 2 if fmf else CVC5_MS), '--seed=%d' % SEED, path],
             capture_output=True, text=True, timeout=CVC5_MS / 1000.0 + 5)
         res = out.stdout.strip().split('\n', 1)
         verdict = res[0].strip() if res else 'unknown'
@@ -91,6 +91,11 @@ def check(fs, want_model=False, strings_fallback=True, timeout_ms=None):
         out = ('unknown', None, 'z3')
         if strings_fallback and _has_strings(fs):
             v, rest = _cvc5(fs, want_model)
+            if v == 'unknown' and want_model:
+                # finite-model finding for strings: only ever answers sat (a counter-model), which is replayed natively
+                v2, rest2 = _cvc5(fs, want_model, fmf=True)
+                if v2 == 'sat':
+                    v, rest = v2, rest2
             if v != 'unknown':
                 stats['cvc5_decided'] += 1
                 out = (v, rest if v == 'sat' else None, 'cvc5')
